@@ -7,6 +7,7 @@ import GocoinV.Proofs.C13
 import GocoinV.Proofs.C13Sig
 import GocoinV.Proofs.C13Demo
 import GocoinV.Proofs.C13Final
+import GocoinV.Proofs.C13Digest
 namespace GocoinV.Props.C13
 open GocoinV GocoinV.WalletTx GocoinV.WalletSpec
 
@@ -238,29 +239,43 @@ example : Proofs.C13L.SignOk 1 [1] 1 := by
   | none => rw [hs] at h; simp at h
   | some t => obtain ⟨r, s, c⟩ := t; rw [hs] at h; exact ⟨r, s, c, rfl, by simpa using h⟩
 
-/-- **signatures_verify.** For every input `i` of a transaction handed to sign_tx without witness data whose spent
-    output is one of the wallet's own four types (P2PKH, P2WPKH, P2SH-P2WPKH when not in bech32 mode, P2TR key path),
-    the signed transaction's input `i` passes the REAL script rules `ScriptSpec.verifyScript` — scriptSig and witness
-    as sign_tx assembled them (`txCtxOf`), the spent scriptPubKey, EVERY flag set satisfying Core's flag dependencies
-    (so consensus and standardness alike: P2SH, WITNESS, TAPROOT, STRICTENC, DERSIG, LOW_S, NULLFAIL, SIGPUSHONLY,
-    MINIMALDATA, CLEANSTACK, WITNESS_PUBKEYTYPE …) — for every oracle instance `O` whose `ecdsaVerify` /
-    `schnorrVerify` ARE C03's models of `btc.EcdsaVerify` / `btc.SchnorrVerify` (`hO_*`), with the wallet's keys the
-    compressed public keys of secrets in [1, n−1] and the signer C03's `Signature.Sign`+`Bytes()` / `SchnorrSign`
-    (`C03Signer`; nonce source and aux randomness arbitrary). The ECDSA/Schnorr sign⇒verify facts are IMPORTED from
-    C03 (`own_signature_accepted`, `sign_canonical`, `schnorr_sign_verifies`, `generator_order`), not assumed; by
-    C01's `script_equiv` the same verdict is gocoin's `VerifyTxScript`.
-    Remaining hypotheses:
-      `hcalls`   the (up to three) signing calls for this input succeed with R ≠ 0 — the ONE hypothesis inherited from
-                 C03 (`Sign` does not refuse R = 0);
-      `dig_*`    digest signed = digest verified: the oracle's digest for the SIGNED transaction is the digest the
-                 wallet computed from the skeleton of the unsigned one (C02's models read nothing else — see OPEN);
-      `no_clash` the signature bytes ‖ 01 are not the 20-byte key hash itself (FindAndDelete; needs a 19-byte DER
-                 signature equal to a HASH160);  `nonzero` no key hash / x-only key is "false" as a stack element
-                 (all-zero, Core refuses such a witness program);  `no_cross`, `haddr`, `hss` as in the first version.
-    -- OPEN: `digests_read_skeleton_only` — instantiate `C` with C02's `signatureHash` / `witnessSigHash` /
-    `taprootSigHash` on the wire transaction and derive `dig_*` from "these functions do not read scriptSig or
-    witness" (induction over `legacyIns`, `prevoutsBytes`, `sequencesBytes`); not done in this pass. -/
-theorem signatures_verify (H : Addr.Hashes) (O : Script.Oracles) (C : Crypto) (K : C03Signer) (f : ScriptSpec.Flags)
+/-- **digests_read_skeleton_only** (was OPEN). C02's models of `Tx.SignatureHash`, `Tx.WitnessSigHash` and
+    `Tx.TaprootSigHash` (Model/SigHash.lean — the functions C02's check ties to lib/btc/tx.go and taproot.go) do not read
+    the scriptSigs or the witness data of the transaction they are called on: for any two wallet transactions with the same
+    skeleton (version, lock time, outpoints, sequence numbers, outputs) — e.g. the transaction while `sign_tx` is at input
+    i, with the other inputs unsigned, partly signed or signed, and the final transaction the verifier sees — and ANY two
+    coherent states of the per-transaction hash cache (filled by whichever earlier requests), for every script code,
+    amount, input index, hash type and execution data: the legacy results are equal, the BIP143 results are equal, the
+    BIP341 results are equal; and a cache that is coherent for one of them is coherent for the other (so the cache filled
+    while signing stays valid for the finished transaction). `spent`: one spent output per input (BIP341 hashes them all).
+    Proved by blanking: each function on `tx` equals itself on `stripTx tx` (all scriptSigs empty, witness nil) —
+    `signatureHash_strip`, `witnessSigHash_strip`, `taprootSigHash_strip`, `cacheOK_strip` (Proofs/C13Digest.lean). -/
+theorem digests_read_skeleton_only (sha : Bytes → Bytes) (t1 t2 : Tx) (hsk : skeleton t1 = skeleton t2) (spent : List TxOut)
+    (hlen : t1.ins.length ≤ spent.length) (c1 c2 : SigHash.Cache)
+    (h1 : SigHash.Cache.OK sha (toWire t1) (spent.map wireOut) c1) (h2 : SigHash.Cache.OK sha (toWire t2) (spent.map wireOut) c2) :
+    (∀ sc i ht, SigHash.signatureHash sha (toWire t1) sc i ht = SigHash.signatureHash sha (toWire t2) sc i ht) ∧
+    (∀ sc amount i ht, (SigHash.witnessSigHash sha (toWire t1) c1 sc amount i ht).1
+        = (SigHash.witnessSigHash sha (toWire t2) c2 sc amount i ht).1) ∧
+    (∀ ed i ht script, (SigHash.taprootSigHash true sha (toWire t1) (spent.map wireOut) c1 ed i ht script).1
+        = (SigHash.taprootSigHash true sha (toWire t2) (spent.map wireOut) c2 ed i ht script).1) ∧
+    SigHash.Cache.OK sha (toWire t2) (spent.map wireOut) c1 :=
+  digests_same_skeleton sha t1 t2 hsk spent hlen c1 c2 h1 h2
+
+/-- non-vacuity: two transactions that differ in a scriptSig and in the witness have the same skeleton, and the empty cache
+    is coherent -/
+example : skeleton { version := 2, ins := [⟨[1], 0, [9, 9], 5⟩], outs := [⟨7, [0x6a]⟩], wit := some [[[3]]], lockTime := 3 }
+    = skeleton { version := 2, ins := [⟨[1], 0, [], 5⟩], outs := [⟨7, [0x6a]⟩], wit := none, lockTime := 3 } := by decide
+example (sha : Bytes → Bytes) (t : Tx) (sp : List TxOut) : SigHash.Cache.OK sha (toWire t) (sp.map wireOut) {} :=
+  SigHash.Cache.OK_empty _ _ _
+
+/-- the wallet's digests: C02's three model functions evaluated on the skeleton (`c02Crypto`, Proofs/C13Digest.lean);
+    the verify fields of `Crypto` are not used by `signatures_verify` -/
+abbrev walletCrypto (sha : Bytes → Bytes) (H : Addr.Hashes) (K : C03Signer) : Crypto :=
+  c02Crypto sha H.hash160 (Model.Sig.ecdsaVerify true) (Model.Sig.schnorrVerify K.tagged)
+
+/-- **signatures_verify_given_digests** (the form of the previous pass, kept: ANY `Crypto` instance, with "digest signed =
+    digest verified" as the hypotheses `dig_*`; `signatures_verify` below discharges them for C02's functions). -/
+theorem signatures_verify_given_digests (H : Addr.Hashes) (O : Script.Oracles) (C : Crypto) (K : C03Signer) (f : ScriptSpec.Flags)
     (c : Cfg) (ms : MsFn) (t : Tx) (spent : List TxOut) (i : Nat) (inp : TxIn) (uo : TxOut)
     (hf : ScriptSpec.FlagsOk f)
     (hO_ecdsa : ∀ pk sg dg, O.ecdsaVerify pk sg dg = some (Model.Sig.ecdsaVerify true pk sg dg))
@@ -285,6 +300,67 @@ theorem signatures_verify (H : Addr.Hashes) (O : Script.Oracles) (C : Crypto) (K
       uo.script f = .ok () :=
   signatures_verify_real H O C K f {} c ms t spent i inp uo hf hO_ecdsa hO_schnorr hash_same hash_len dig_legacy dig_wit
     dig_tap hkeys hcalls no_clash no_cross nonzero hwit hin hsp hms hown haddr hss
+
+/-- **signatures_verify.** For every input `i` of a transaction handed to sign_tx without witness data whose spent
+    output is one of the wallet's own four types (P2PKH, P2WPKH, P2SH-P2WPKH when not in bech32 mode, P2TR key path),
+    the signed transaction's input `i` passes the REAL script rules `ScriptSpec.verifyScript` — scriptSig and witness
+    as sign_tx assembled them (`txCtxOf`), the spent scriptPubKey, EVERY flag set satisfying Core's flag dependencies
+    (so consensus and standardness alike: P2SH, WITNESS, TAPROOT, STRICTENC, DERSIG, LOW_S, NULLFAIL, SIGPUSHONLY,
+    MINIMALDATA, CLEANSTACK, WITNESS_PUBKEYTYPE …) — where
+      * the wallet signs the digests that C02's models of `SignatureHash` / `WitnessSigHash` / `TaprootSigHash` compute
+        (`walletCrypto`), and the verifier's digest requests are answered by THE SAME model functions applied to the
+        SIGNED transaction, in any coherent state of its hash cache (`hO_digests : DigestsAreC02 …` — like `hO_*` below
+        this names which function the oracle is, it is not an equation between digests); "digest signed = digest
+        verified" is PROVED from it (`digests_read_skeleton_only`: these functions read no scriptSig and no witness, and
+        sign_tx changes nothing else — `raw_sign_preserves`);
+      * `ecdsaVerify` / `schnorrVerify` ARE C03's models of `btc.EcdsaVerify` / `btc.SchnorrVerify` (`hO_*`), the wallet's
+        keys are the compressed public keys of secrets in [1, n−1] and the signer is C03's `Signature.Sign`+`Bytes()` /
+        `SchnorrSign` (`C03Signer`; nonce source and aux randomness arbitrary). The ECDSA/Schnorr sign⇒verify facts are
+        IMPORTED from C03 (`own_signature_accepted`, `sign_canonical`, `schnorr_sign_verifies`, `generator_order`), not
+        assumed; by C01's `script_equiv` the same verdict is gocoin's `VerifyTxScript`.
+    Remaining hypotheses:
+      `hspent`   one spent output per input is supplied (BIP341 hashes all of them; `TaprootSigHash` panics otherwise);
+      `hcalls`   the (up to three) signing calls for this input succeed with R ≠ 0 — the ONE hypothesis inherited from
+                 C03 (`Sign` does not refuse R = 0);
+      `no_clash` the signature bytes ‖ 01 are not the 20-byte key hash itself (FindAndDelete; needs a 19-byte DER
+                 signature equal to a HASH160);  `nonzero` no key hash / x-only key is "false" as a stack element
+                 (all-zero, Core refuses such a witness program);  `no_cross`, `haddr`, `hss` as in the first version. -/
+theorem signatures_verify (H : Addr.Hashes) (O : Script.Oracles) (sha : Bytes → Bytes) (K : C03Signer) (f : ScriptSpec.Flags)
+    (c : Cfg) (ms : MsFn) (t : Tx) (spent : List TxOut) (i : Nat) (inp : TxIn) (uo : TxOut)
+    (hf : ScriptSpec.FlagsOk f)
+    (hO_ecdsa : ∀ pk sg dg, O.ecdsaVerify pk sg dg = some (Model.Sig.ecdsaVerify true pk sg dg))
+    (hO_schnorr : ∀ pk sg dg, O.schnorrVerify pk sg dg = some (Model.Sig.schnorrVerify K.tagged pk sg dg))
+    (hash_same : O.hash160 = H.hash160) (hash_len : ∀ b, (H.hash160 b).length = 20)
+    (hO_digests : DigestsAreC02 O sha
+      (runRaw H c (keyTable H c.bech32 K.pubs) t (spent.map some) (sigOf (walletCrypto sha H K) K.signer spent) ms).1
+      spent i uo.value)
+    (hspent : t.ins.length ≤ spent.length)
+    (hkeys : ∀ d ∈ K.secs, 0 < d ∧ d < Secp.n)
+    (hcalls : ∀ j kr, (keyTable H c.bech32 K.pubs)[j]? = some kr →
+      CallsOk (walletCrypto sha H K) K (skeleton t) spent i uo j kr.h160)
+    (no_clash : ∀ j kr, (keyTable H c.bech32 K.pubs)[j]? = some kr →
+      K.signer.ecdsa j ((walletCrypto sha H K).legacyDigest (skeleton t) i uo.script 1) ++ [1] ≠ kr.h160)
+    (no_cross : NoCross (keyTable H c.bech32 K.pubs))
+    (nonzero : ∀ (k : Nat) (kr : KeyRec), (keyTable H c.bech32 K.pubs)[k]? = some kr →
+      ScriptSpec.castToBool kr.h160 = true ∧ ScriptSpec.castToBool ((kr.pub.drop 1).take 32) = true)
+    (hwit : t.wit = none) (hin : t.ins[i]? = some inp) (hsp : spent[i]? = some uo) (hms : ms i = none)
+    (hown : OwnScript c (keyTable H c.bech32 K.pubs) uo.script)
+    (haddr : (Addr.fromPkScript H uo.script c.testnet).isSome)
+    (hss : inp.scriptSig = [] ∨ uo.script.length = 25 ∨ uo.script.length = 23) :
+    ScriptSpec.verifyScript O
+      (txCtxOf (runRaw H c (keyTable H c.bech32 K.pubs) t (spent.map some) (sigOf (walletCrypto sha H K) K.signer spent) ms).1 i)
+      uo.script f = .ok () := by
+  have hi : i < t.ins.length := by
+    cases hlt : decide (i < t.ins.length) with
+    | true => exact of_decide_eq_true hlt
+    | false =>
+      have : ¬ i < t.ins.length := of_decide_eq_false hlt
+      rw [List.getElem?_eq_none (by omega)] at hin; cases hin
+  obtain ⟨d1, d2, d3⟩ := dig_of_c02 O sha H.hash160 (Model.Sig.ecdsaVerify true) (Model.Sig.schnorrVerify K.tagged) t _
+    (raw_sign_preserves H c (keyTable H c.bech32 K.pubs) (sigOf (walletCrypto sha H K) K.signer spent) ms t (spent.map some))
+    spent i uo.value hi hspent hO_digests
+  exact signatures_verify_real H O (walletCrypto sha H K) K f {} c ms t spent i inp uo hf hO_ecdsa hO_schnorr hash_same hash_len
+    d1 d2 d3 hkeys hcalls no_clash no_cross nonzero hwit hin hsp hms hown haddr hss
 
 /-- `stringToSatoshis` on a plain decimal `w.ffffffff` (8 fraction digits) is exact below 2^64 and WRAPS above
     (DESIGN O4, outside the property's quantifier): 184467440737.09551616 BTC = 2^64 satoshi parses as 0. -/
